@@ -65,6 +65,12 @@ func labels(s objsrv.Spec) []string {
 	if s.Late {
 		l = append(l, "late-header")
 	}
+	if s.TLSPeer {
+		l = append(l, "tls-peer-with-header")
+		if s.Defect.IsSignature() && s.TTL == 1 {
+			l = append(l, "tls-peer-ttl1-broken-header:"+s.Op.String())
+		}
+	}
 	if s.Session != objsrv.SessionNone {
 		l = append(l, fmt.Sprintf("session:v%d", s.Session))
 	}
